@@ -13,7 +13,7 @@ import (
 func init() {
 	register(&propDef{
 		ID:          "C08",
-		Explanation: "Equality of the generated programs for all spellings is not decided. Decides three agreement clauses between parser, formatter and generator: R1 decode/encode symmetry — every parser-node field that the parser fills with a decoded value (html.UnescapeString) is re-encoded (html.EscapeString) wherever a formatter method (Write/String of the node) emits it; R2 classifier agreement — over the finite domain {node kinds} × {block element?} × {indented children?}, evaluated from the two type switches: wherever the formatter's block classifier (a forced line break before the node) is true, the generator's inline-or-text classifier (whitespace before the node is rendered) must be false, otherwise formatting inserts a space into the rendered output; R3 field coverage — every field of a parser node type that the generator reads in order to emit code is also read by that node's own formatter methods (a field the formatter drops is lost from the formatted file). NOT decided: the formatter's whitespace decisions on concrete files, gofmt-level layout of embedded Go.",
+		Explanation: "Equality of the generated programs for all spellings is not decided. Decides three agreement clauses between parser, formatter and generator: R1 decode/encode symmetry — every parser-node field that the parser fills with a decoded value (html.UnescapeString) is re-encoded (html.EscapeString) wherever a formatter method (Write/String of the node) emits it; R2 classifier agreement — over the finite domain {node kinds} × {block element?} × {indented children?}, evaluated from the two type switches: wherever the formatter's block classifier (a forced line break before the node) is true, the generator's inline-or-text classifier (whitespace before the node is rendered) must be false, otherwise formatting inserts a space into the rendered output; R3 field coverage — every field of a parser node type that the generator reads in order to emit code is also read by that node's own formatter methods (a field the formatter drops is lost from the formatted file); R4 content fields (string fields of parser nodes outside Go expressions that the generator reads, directly or through node methods) are written back verbatim by the formatter: never assigned a non-constant value and never passed through a string-transforming strings.* call; R5 every child list taken from a parser node is stripped of whitespace-only nodes before the generator renders it (the formatter adds and removes such nodes freely). NOT decided: the formatter's whitespace decisions on concrete files, gofmt-level layout of embedded Go.",
 		Assumptions: []string{"atoms of the classifiers (IsBlockElement, IndentChildren) are independent booleans"},
 		Trusted:     []string{"go/types", "x/tools go/packages"},
 		Run:         runC08,
@@ -277,6 +277,8 @@ func runC08(c *Ctx) {
 
 	// R3 ------------------------------------------------------------
 	fieldCoverage(c, pp, gp)
+	contentVerbatim(c, pp, gp)
+	whitespaceNodesNotRendered(c, gp)
 	c.floor("C08.R2", 10)
 }
 
@@ -453,4 +455,306 @@ func fieldCoverage(c *Ctx, pp, gp *packages.Package) {
 	}
 	c.count("generator_read_fields_checked", n)
 	c.floor("C08.R3", 20)
+}
+
+// contentVerbatim: C08.R4 — string fields of parser nodes that are content (not Go code) and that the generator
+// reads must pass through the formatter untransformed: no assignment to them, no string-transforming call on them.
+func contentVerbatim(c *Ctx, pp, gp *packages.Package) {
+	pinfo, ginfo := pp.TypesInfo, gp.TypesInfo
+	// generator-read string fields, excluding fields of Expression (Go code, reformatted with go/format on purpose)
+	gread := map[string]bool{}
+	for _, fd := range allFuncDecls(gp) {
+		ast.Inspect(fd.Body, func(n ast.Node) bool {
+			se, ok := n.(*ast.SelectorExpr)
+			if !ok {
+				return true
+			}
+			sel, ok := ginfo.Selections[se]
+			if !ok || sel.Kind() != types.FieldVal || !isStringType(sel.Type()) {
+				return true
+			}
+			rt := sel.Recv()
+			if pt, ok := rt.(*types.Pointer); ok {
+				rt = pt.Elem()
+			}
+			if nt, ok := rt.(*types.Named); ok && nt.Obj().Pkg() != nil && nt.Obj().Pkg().Path() == pkgParser && nt.Obj().Name() != "Expression" {
+				gread[nt.Obj().Name()+"."+se.Sel.Name] = true
+			}
+			return true
+		})
+	}
+	// fields read through node methods the generator calls (e.g. ConstantCSSProperty.String)
+	for _, fd := range allFuncDecls(gp) {
+		ast.Inspect(fd.Body, func(n ast.Node) bool {
+			call, ok := n.(*ast.CallExpr)
+			if !ok {
+				return true
+			}
+			fn := calleeOf(ginfo, call)
+			if fn == nil || fn.Pkg() == nil || fn.Pkg().Path() != pkgParser {
+				return true
+			}
+			for _, pfd := range allFuncDecls(pp) {
+				if pinfo.Defs[pfd.Name] != types.Object(fn) || pfd.Recv == nil {
+					continue
+				}
+				t := recvTypeName(pfd.Recv.List[0].Type)
+				ast.Inspect(pfd.Body, func(m ast.Node) bool {
+					if se, ok := m.(*ast.SelectorExpr); ok {
+						if sel, ok := pinfo.Selections[se]; ok && sel.Kind() == types.FieldVal && isStringType(sel.Type()) {
+							gread[t+"."+se.Sel.Name] = true
+						}
+					}
+					return true
+				})
+			}
+			return true
+		})
+	}
+	// formatter closure
+	byObj := map[types.Object]*ast.FuncDecl{}
+	var work []*ast.FuncDecl
+	for _, fd := range allFuncDecls(pp) {
+		byObj[pinfo.Defs[fd.Name]] = fd
+		if fd.Recv != nil && (fd.Name.Name == "Write" || fd.Name.Name == "String") {
+			work = append(work, fd)
+		}
+	}
+	seen := map[*ast.FuncDecl]bool{}
+	var fns []*ast.FuncDecl
+	for len(work) > 0 {
+		fd := work[len(work)-1]
+		work = work[:len(work)-1]
+		if seen[fd] {
+			continue
+		}
+		seen[fd] = true
+		fns = append(fns, fd)
+		ast.Inspect(fd.Body, func(n ast.Node) bool {
+			if call, ok := n.(*ast.CallExpr); ok {
+				if fn := calleeOf(pinfo, call); fn != nil {
+					if cfd := byObj[fn]; cfd != nil {
+						work = append(work, cfd)
+					}
+				}
+			}
+			return true
+		})
+	}
+	fieldKey := func(se *ast.SelectorExpr) string {
+		sel, ok := pinfo.Selections[se]
+		if !ok || sel.Kind() != types.FieldVal {
+			return ""
+		}
+		rt := sel.Recv()
+		if pt, ok := rt.(*types.Pointer); ok {
+			rt = pt.Elem()
+		}
+		if nt, ok := rt.(*types.Named); ok {
+			return nt.Obj().Name() + "." + se.Sel.Name
+		}
+		return ""
+	}
+	nuse := 0
+	for _, fd := range fns {
+		var stack []ast.Node
+		ast.Inspect(fd.Body, func(n ast.Node) bool {
+			if n == nil {
+				stack = stack[:len(stack)-1]
+				return true
+			}
+			stack = append(stack, n)
+			se, ok := n.(*ast.SelectorExpr)
+			if !ok {
+				return true
+			}
+			k := fieldKey(se)
+			if k == "" || !gread[k] {
+				return true
+			}
+			nuse++
+			key := fmt.Sprintf("%s|verbatim:%s", funcKey(pp, fd), k)
+			// parent context
+			if len(stack) >= 2 {
+				switch par := stack[len(stack)-2].(type) {
+				case *ast.AssignStmt:
+					for i, l := range par.Lhs {
+						if l == ast.Expr(se) {
+							if i < len(par.Rhs) {
+								if _, isConst := constString(pinfo, par.Rhs[i]); isConst {
+									return true
+								}
+							}
+							c.viol("C08.R4", key, c.pos(par.Pos()), fmt.Sprintf("%s rewrites %s before writing it: the formatted file carries different content than the source, so the generated program differs", fd.Name.Name, k))
+							return true
+						}
+					}
+				case *ast.CallExpr:
+					fn := calleeOf(pinfo, par)
+					isArg := false
+					for _, a := range par.Args {
+						if a == ast.Expr(se) {
+							isArg = true
+						}
+					}
+					if isArg && fn != nil && fn.Pkg() != nil && fn.Pkg().Path() == "strings" {
+						if sig, ok := fn.Type().(*types.Signature); ok && sig.Results().Len() == 1 {
+							rt := sig.Results().At(0).Type().String()
+							if rt == "string" || rt == "[]string" {
+								c.viol("C08.R4", key, c.pos(par.Pos()), fmt.Sprintf("%s passes %s through strings.%s before writing it: content (not Go code) must be written back verbatim", fd.Name.Name, k, fn.Name()))
+								return true
+							}
+						}
+					}
+				}
+			}
+			c.ok("C08.R4", key, c.pos(se.Pos()), "used verbatim")
+			return true
+		})
+	}
+	c.count("content_field_uses_in_formatter", nuse)
+	c.floor("C08.R4", 8)
+}
+
+// whitespaceNodesNotRendered: C08.R5 — the formatter creates and removes whitespace-only nodes freely, so the generator
+// must strip them from every child list it renders.
+func whitespaceNodesNotRendered(c *Ctx, gp *packages.Package) {
+	ginfo := gp.TypesInfo
+	nodeT, _ := c.pkg("parser/v2").Types.Scope().Lookup("Node").(*types.TypeName)
+	if nodeT == nil {
+		return
+	}
+	isNodeSlice := func(t types.Type) bool {
+		sl, ok := t.(*types.Slice)
+		return ok && types.Identical(sl.Elem(), nodeT.Type())
+	}
+	// strip functions: func([]Node) []Node in the generator whose body tests for parser.Whitespace
+	strip := map[types.Object]bool{}
+	for _, fd := range allFuncDecls(gp) {
+		obj, _ := ginfo.Defs[fd.Name].(*types.Func)
+		if obj == nil {
+			continue
+		}
+		sig := obj.Type().(*types.Signature)
+		if sig.Params().Len() != 1 || sig.Results().Len() != 1 || !isNodeSlice(sig.Params().At(0).Type()) || !isNodeSlice(sig.Results().At(0).Type()) {
+			continue
+		}
+		txt := nodeText(c.fset, fd.Body)
+		if strings.Contains(txt, "parser.Whitespace") {
+			strip[obj] = true
+		}
+	}
+	for changed := true; changed; {
+		changed = false
+		for _, fd := range allFuncDecls(gp) {
+			obj, _ := ginfo.Defs[fd.Name].(*types.Func)
+			if obj == nil || strip[obj] {
+				continue
+			}
+			sig := obj.Type().(*types.Signature)
+			if sig.Params().Len() != 1 || sig.Results().Len() != 1 || !isNodeSlice(sig.Params().At(0).Type()) || !isNodeSlice(sig.Results().At(0).Type()) {
+				continue
+			}
+			// composition of strip functions
+			if len(fd.Body.List) == 1 {
+				if ret, ok := fd.Body.List[0].(*ast.ReturnStmt); ok && len(ret.Results) == 1 {
+					if call, ok := ret.Results[0].(*ast.CallExpr); ok {
+						if fn := calleeOf(ginfo, call); fn != nil && strip[fn] {
+							strip[obj] = true
+							changed = true
+						}
+					}
+				}
+			}
+		}
+	}
+	var isStripped func(fd *ast.FuncDecl, e ast.Expr, depth int) bool
+	isStripped = func(fd *ast.FuncDecl, e ast.Expr, depth int) bool {
+		e = ast.Unparen(e)
+		if call, ok := e.(*ast.CallExpr); ok {
+			if fn := calleeOf(ginfo, call); fn != nil && strip[fn] {
+				return true
+			}
+			return false
+		}
+		if id, ok := e.(*ast.Ident); ok && depth < 3 {
+			ob := ginfo.ObjectOf(id)
+			n, all := 0, true
+			ast.Inspect(fd.Body, func(m ast.Node) bool {
+				if as, ok := m.(*ast.AssignStmt); ok && len(as.Lhs) == len(as.Rhs) {
+					for i, l := range as.Lhs {
+						if lid, ok := l.(*ast.Ident); ok && ginfo.ObjectOf(lid) == ob {
+							n++
+							if !isStripped(fd, as.Rhs[i], depth+1) {
+								all = false
+							}
+						}
+					}
+				}
+				return true
+			})
+			return n > 0 && all
+		}
+		return false
+	}
+	ncall := 0
+	for _, fd := range allFuncDecls(gp) {
+		ast.Inspect(fd.Body, func(n ast.Node) bool {
+			call, ok := n.(*ast.CallExpr)
+			if !ok {
+				return true
+			}
+			fn := calleeOf(ginfo, call)
+			if fn == nil || fn.Pkg() == nil || fn.Pkg().Path() != pkgGenerator {
+				return true
+			}
+			sig := fn.Type().(*types.Signature)
+			if sig.Params().Len() < 2 || sig.Results().Len() != 1 || !isErrorType(sig.Results().At(0).Type()) {
+				return true
+			}
+			for i, a := range call.Args {
+				if i >= sig.Params().Len() || !isNodeSlice(sig.Params().At(i).Type()) {
+					continue
+				}
+				// only child lists taken from a parser node (…Children, Then, Else)
+				fromNode := false
+				ast.Inspect(a, func(m ast.Node) bool {
+					if se, ok := m.(*ast.SelectorExpr); ok {
+						switch se.Sel.Name {
+						case "Children", "Then", "Else":
+							fromNode = true
+						}
+					}
+					return true
+				})
+				if id, ok := ast.Unparen(a).(*ast.Ident); ok {
+					if _, isParam := ginfo.ObjectOf(id).(*types.Var); isParam {
+						fromNode = fromNode || !isParamOf(ginfo, fd, id)
+					}
+				}
+				if !fromNode {
+					continue
+				}
+				ncall++
+				key := fmt.Sprintf("%s|renders-stripped:%s", funcKey(gp, fd), types.ExprString(a))
+				c.check(isStripped(fd, a, 0), "C08.R5", key, c.pos(call.Pos()), "whitespace-only nodes are stripped before rendering",
+					fmt.Sprintf("%s renders the child list %s without stripping whitespace-only nodes: the formatter adds and removes such nodes (line breaks after comments and calls, `<x> </x>` → `<x></x>`), so formatting changes the rendered output", fd.Name.Name, types.ExprString(a)))
+			}
+			return true
+		})
+	}
+	c.count("child_list_render_sites", ncall)
+	c.floor("C08.R5", 6)
+}
+
+func isParamOf(info *types.Info, fd *ast.FuncDecl, id *ast.Ident) bool {
+	ob := info.ObjectOf(id)
+	for _, prm := range fd.Type.Params.List {
+		for _, nm := range prm.Names {
+			if info.Defs[nm] == ob {
+				return true
+			}
+		}
+	}
+	return false
 }
